@@ -468,7 +468,9 @@ where
             break;
         }
     }
-    if tie && !floor.is_odd() {
+    // if the digits ran out while still equal to the tie's digits and the
+    // tie has further non-zero digits, the literal is below the tie
+    if tie && (boundary != I::ZERO || !floor.is_odd()) {
         return Some(floor);
     }
     let next_up = floor.checked_add(one)?;
